@@ -15,6 +15,8 @@ META = {
         "current_state= writes and unmapped values through the setter. After every step and inside "
         "every callback: model field == reference value (repr, i.e. value and type), current_state(.value)"
         " and current_state_value agree, exactly one is_active, sm.model is the user's object. "
+        ""
+        "the library's default model with a custom state_field; stored state together with start_value; assignment of a State of another class. "
         "distinct_nontrivial = distinct (value kind, model shape, state_field, write kinds used, "
         "start/stored, falsy value reached) combinations observed."
     ),
